@@ -893,7 +893,7 @@ class SyncObj(object):
             newEntries = message.get('entries', [])
             serialized = message.get('serialized', None)
             self.__leaderCommitIndex = leaderCommitIndex = message['commit_index']
-            logMatchesLeader = False
+            lastMatchedIdx = None
 
             # Regular append entries
             if 'prevLogIdx' in message:
@@ -923,15 +923,28 @@ class SyncObj(object):
                 if prevEntries[0][2] != prevLogTerm:
                     self.__sendNextNodeIdx(node, nextNodeIdx = prevLogIdx, success = False, reset=True)
                     return
-                if len(prevEntries) > 1:
+                nextNodeIdx = prevLogIdx + 1
+                if newEntries:
+                    nextNodeIdx = newEntries[-1][1] + 1
+
+                # Entries the log already holds (same index and term as the leader's) are kept;
+                # the log is cut only from the first entry that conflicts with the leader's.
+                matched = 0
+                while matched < len(newEntries) and matched + 1 < len(prevEntries) and \
+                        prevEntries[matched + 1][1] == newEntries[matched][1] and \
+                        prevEntries[matched + 1][2] == newEntries[matched][2]:
+                    matched += 1
+                newEntries = newEntries[matched:]
+                conflictingEntries = prevEntries[matched + 1:] if newEntries else []
+                if conflictingEntries:
                     # rollback cluster changes
                     if self.__conf.dynamicMembershipChange:
-                        for entry in reversed(prevEntries[1:]):
+                        for entry in reversed(conflictingEntries):
                             clusterChangeRequest = self.__parseChangeClusterRequest(entry[0])
                             if clusterChangeRequest is not None:
                                 self.__doChangeCluster(clusterChangeRequest, reverse=True)
 
-                    self.__deleteEntriesFrom(prevLogIdx + 1)
+                    self.__deleteEntriesFrom(prevLogIdx + 1 + matched)
                 for entry in newEntries:
                     self.__raftLog.add(*entry)
 
@@ -942,23 +955,19 @@ class SyncObj(object):
                         if clusterChangeRequest is not None:
                             self.__doChangeCluster(clusterChangeRequest)
 
-                nextNodeIdx = prevLogIdx + 1
-                if newEntries:
-                    nextNodeIdx = newEntries[-1][1] + 1
-
                 self.__sendNextNodeIdx(node, nextNodeIdx=nextNodeIdx, success=True)
-                logMatchesLeader = True
+                lastMatchedIdx = nextNodeIdx - 1
 
             # Install snapshot
             elif serialized is not None:
                 if self.__serializer.setTransmissionData(serialized):
                     self.__loadDumpFile(clearJournal=True)
                     self.__sendNextNodeIdx(node, success=True)
-                    logMatchesLeader = True
+                    lastMatchedIdx = self.__getCurrentLogIndex()
 
             # The commit index may only cover entries that are known to match the leader's log
-            if logMatchesLeader and leaderCommitIndex > self.__raftCommitIndex:
-                self.__raftCommitIndex = min(leaderCommitIndex, self.__getCurrentLogIndex())
+            if lastMatchedIdx is not None and leaderCommitIndex > self.__raftCommitIndex:
+                self.__raftCommitIndex = max(self.__raftCommitIndex, min(leaderCommitIndex, lastMatchedIdx))
 
             self.__raftLog.setRaftCommitIndex(self.__raftCommitIndex)
 
